@@ -1,1 +1,3 @@
 pub mod c12;
+#[cfg(feature = "ffi")]
+pub mod c19;
